@@ -15,7 +15,9 @@ THEOREMS = ["C04_id_is_tag_hash", "C04_parse", "C04_object_hex_roundtrip", "C04_
             "C04_satisfiable", "C04_tagger_date_exact"]
 RULE = ("5 target types x {no author, author, author+date, date without author (rejected)} x message {None, empty, "
         "arbitrary incl. newlines / leading spaces / binary} x names with newlines/spaces/empty x dates over the whole "
-        "accepted range, all microsecond shapes, canonical and junk offset bytes; target None (TypeError) included; "
+        "accepted range, all microsecond shapes, canonical and junk offset bytes; target None (TypeError) included; every case "
+        "is rebuilt with the other synthetic flag, a split author and a metadata mapping from a pool (legacy 'extra_headers' "
+        "layout, keys named like tag-object lines or like Release fields, nested containers, empty) and must keep its id; "
         "non-trivial = an optional field present and a multi-line or empty value; distinct = distinct request")
 TRUSTED = ["format_date / offset bytes as modelled in model/Time.v (property C16)", "bytes join/split/'%d' as modelled in lib/Headers.v, lib/Dec.v",
            "lib/Sha1.v as an instance of the hash oracle (validated against hashlib on every case)"]
@@ -38,7 +40,7 @@ def gen(rng, tier):
              "ttype": TTYPES[(k // 4) % 5],
              "author": gen_fullname(rng).hex() if pres in (1, 2) else None,
              "date": gen_date(rng) if pres in (2, 3) else None,
-             "synthetic": rng.random() < 0.5}
+             "synthetic": rng.random() < 0.5, "md": rng.randrange(len(MD_POOL)), "md_val": gen_bytes(rng).hex()}
         c["message"] = None if c["message"] is None else c["message"].hex()
         cases.append(c)
     return cases
@@ -61,6 +63,23 @@ def classify(c):
     return ks
 
 
+# metadata never takes part in a release id, whatever its keys look like (the revision-only legacy "extra_headers" layout,
+# keys named like the lines of a tag object, nested containers)
+MD_POOL = [lambda v: {"some": "metadata", "n": 1},
+           lambda v: {"extra_headers": [[b"gpgsig", v], [b"x-custom", b"1"]]},
+           lambda v: {"extra_headers": [(b"mergetag", v)]},
+           lambda v: {"extra_headers": []},
+           lambda v: {"object": v, "type": "commit", "tag": v, "tagger": v, "message": v, "gpgsig": v},
+           lambda v: {"original_artifact": [{"sha1": v.hex(), "length": len(v)}], "raw_manifest": v, "id": v},
+           lambda v: {},
+           lambda v: {"author": {"fullname": v}, "date": {"timestamp": {"seconds": 1, "microseconds": 0}, "offset_bytes": b"+0000"},
+                      "synthetic": True, "target": v, "target_type": "revision", "name": v}]
+
+
+def mk_md(c):
+    return MD_POOL[c.get("md", 0)](bytes.fromhex(c.get("md_val", "")))
+
+
 def _build(c, variant=0):
     from swh.model.model import Release, ReleaseTargetType
     return Release(name=bytes.fromhex(c["name"]), message=None if c["message"] is None else bytes.fromhex(c["message"]),
@@ -68,7 +87,7 @@ def _build(c, variant=0):
                    target_type=ReleaseTargetType(c["ttype"]),
                    synthetic=c["synthetic"] if variant == 0 else not c["synthetic"],
                    author=mk_person(c["author"], variant), date=mk_tstz(c["date"]),
-                   metadata=None if variant == 0 else {"some": "metadata", "n": 1})
+                   metadata=None if variant == 0 else mk_md(c))
 
 
 def impl(c):
